@@ -57,6 +57,31 @@ def has_nul(tree):
     return f(tree)
 
 
+def reported(c):
+    """the characters exact_errors reports (Interp.bad_char)"""
+    o = ord(c)
+    return (1 <= o <= 8) or o == 0x0B or (0x0E <= o <= 0x1F) or (0x7F <= o <= 0x9F) or (0xFDD0 <= o <= 0xFDEF) \
+        or (o & 0xFFFE) == 0xFFFE
+
+
+def lex_exempt(tree):
+    """parsed trees the character conditions [lex_hyps] of C17_roundtrip_through_tokenizer_partial are known not
+    to cover (Props/C17.v): a reported character in an element or attribute name, an empty doctype name, a PI
+    data starting with white space"""
+    def f(nodes):
+        for n in nodes:
+            if n[0] == "E":
+                names = [(n[1] or "") + n[3]] + [(a[0] or "") + a[2] for a in n[4]]
+                if any(reported(c) for nm in names for c in nm) or f(n[5]):
+                    return True
+            elif n[0] == "D" and n[1] == "":
+                return True
+            elif n[0] == "P" and n[2][:1] in (" ", "\t", "\n"):
+                return True
+        return False
+    return f(tree)
+
+
 def run(ck):
     if ck.replay:
         rp = json.load(open(ck.replay))
@@ -80,7 +105,7 @@ def run(ck):
 
     stats = {"cases": len(cases), "roundtrip_ok": 0, "roundtrip_fail": 0, "ser_chars": 0, "elements": 0,
              "prefixed_attrs": 0, "escaped_chars": 0, "denotation_compared": 0, "panics": 0, "consistent": 0,
-             "theorem_applies": 0, "shape_fails": 0}
+             "theorem_applies": 0, "shape_fails": 0, "lex_applies": 0, "lex_exempt": 0}
     nontrivial = 0
     bad_corr = 0
     for i, ((x, doc), o) in enumerate(zip(cases, impl)):
@@ -111,8 +136,14 @@ def run(ck):
             diff = first_diff(tree1, parse_tree(sec["TREE2"]))
             payload = {"kind": "failing-input", "xml": x, "doc": doc, "tree": sec["TREE"], "serialized": ser,
                        "reparsed": sec["TREE2"], "first_difference": repr(diff)}
+            cls = "C17:roundtrip-mismatch"
+            if diff and diff[1] and diff[2] and diff[1][0] == "P" and diff[2][0] == "P" and diff[1][1] == diff[2][1] \
+                    and diff[1][2] != diff[2][2] and diff[1][2].lstrip(" \t\n") == diff[2][2]:
+                # the PI data of a parsed tree starts with white space (the PiAfter quirk: <?t? x?>); the serializer
+                # writes it after the one separating space and the re-parse skips all of it
+                cls = "C17:pi-data-leading-white-space-lost"
             ck.violation("re-parsing the serializer's output gives a different tree; first difference %r" % (diff,),
-                         payload, case_class="C17:roundtrip-mismatch")
+                         payload, case_class=cls)
         # ---- correspondence
         m = sections(ser_out[i])
         problems = []
@@ -121,12 +152,15 @@ def run(ck):
         m2 = sections(tok2_out[i])
         if m2.get("TREE") != sec["TREE2"] or m2.get("ERRS") != sec["ERRS2"].split()[1]:
             problems.append("second tree")
-        if not problems and not has_nul(tree1):
+        if not problems and not has_nul(tree1) and ok:      # (a failed round trip is reported by the oracle above)
             # what the model says the items are lexed into == what the tokenizer really delivered
             stats["denotation_compared"] += 1
             want = merge_text([t for t in parse_tokens(sec["TOKS2"]) if t[0] != "Z"])
             got = [t for t in parse_tokens(m.get("TOKS", ""))]
             got = [t for t in got if not (t[0] == "X" and t[1] == "")]
+            # <!DOCTYPE > is read back with the name absent, the item denotes the empty name: the same node
+            undoc = lambda ts: [((t[0], t[1] or "") + tuple(t[2:]) if t[0] == "D" else t) for t in ts]
+            want, got = undoc(want), undoc(got)
             if show_tokens(want) != show_tokens(got):
                 problems.append("item denotation")
         # ---- model statements, re-tested on every parsed tree: forest_cons => adequate (proved),
@@ -146,6 +180,15 @@ def run(ck):
             elif nel > 0:
                 stats["shape_fails"] += 1
                 problems.append("model: a parsed tree with a root element does not satisfy rt_hyps")
+            # tested only: a parsed tree of the round-trip shape satisfies the character conditions of
+            # C17_roundtrip_through_tokenizer_partial (outside the three documented exceptions)
+            if fl.get("hyps") == "1":
+                if fl.get("lex") == "1":
+                    stats["lex_applies"] += 1
+                elif lex_exempt(tree1):
+                    stats["lex_exempt"] += 1
+                else:
+                    problems.append("model: a parsed tree satisfies rt_hyps but not lex_hyps")
         if problems:
             bad_corr += 1
             if bad_corr <= 3:
@@ -168,9 +211,11 @@ def run(ck):
                  "Extraction (ExtrOcamlBasic only) + ocamlopt 4.13.1",
                  "ocaml/xmlns_driver.ml, ocaml/conv.ml, harness/src/bin/xmlns.rs, lib/checks/c16.py + c17.py generator, "
                  "canonical tree printer",
-                 "the lexing of tags/attributes/comments/PIs of the serializer's output by the XML tokenizer (tested by "
-                 "the item denotation correspondence, not modelled in Coq; text and attribute values are modelled)",
-                 "parsed trees satisfy the shape hypotheses of C17_roundtrip_partial and forest_cons (tested on every "
-                 "generated tree: stats.theorem_applies, stats.shape_fails, stats.consistent; not proved)"],
+                 "the TokIR model of the XML tokenizer (TokIR/Interp.v on the regenerated table, reference semantics) that "
+                 "C17_roundtrip_through_tokenizer_partial runs is tied to the Rust tokenizer by the tokenizer checks and, "
+                 "here, by the item denotation correspondence",
+                 "parsed trees satisfy the shape hypotheses of C17_roundtrip_partial, forest_cons and the character "
+                 "conditions lex_hyps (tested on every generated tree: stats.theorem_applies, stats.shape_fails, "
+                 "stats.consistent, stats.lex_applies, stats.lex_exempt; not proved)"],
         assumptions=["doctype public/system ids are outside the serializer API and excluded from the comparison",
                      "trees are those produced by the XML parser (RcDom): no adjacent and no empty text nodes"])
